@@ -70,18 +70,28 @@ CHECKS = {
 
 # scenario families added by the seeding rounds 4-5 (appended to the notes above)
 EXTRA = {
- "C01": " Also: a destination that can mount blobs (mounted / copied after all per blob and candidate repository), a destination reference that already names another manifest, an ordinary layer with mirror URLs, two layers with one file name into a file store.",
- "C02": " Also: ExtendedCopyGraph with FilterAnnotation/FilterArtifactType (their manifest reads are fault points), a mounting destination with fault menus; injected source-read failures also match errdef.ErrNotFound.",
- "C03": " Also: a source that lost one node's content (every node in turn), a referrer whose subject is a blob, one wide shape with 70 referrers.",
- "C05": " Also: the file store's restore-duplicates path, a named push over a longer existing file, a named directory layer; visibility is probed through the bare descriptor too.",
+ "C01": " Also: an index that lists a non-manifest entry; a destination that can mount blobs (mounted / copied after all per blob and candidate repository), a destination reference that already names another manifest, an ordinary layer with mirror URLs, two layers with one file name into a file store.",
+ "C02": " Also: the retry reuses the failed call's options value; ExtendedCopyGraph with FilterAnnotation/FilterArtifactType (their manifest reads are fault points), a mounting destination with fault menus; injected source-read failures also match errdef.ErrNotFound.",
+ "C03": " Also: ExtendedCopy into a destination that already holds everything, indexes carrying the filtered annotation; a source that lost one node's content (every node in turn), a referrer whose subject is a blob, one wide shape with 70 referrers.",
+ "C05": " Also: a pre-consumed VerifyReader handed to Push, all-bad concurrent pushes under an observer; the file store's restore-duplicates path, a named push over a longer existing file, a named directory layer; visibility is probed through the bare descriptor too.",
  "C06": " Also: two references sharing one annotated descriptor, a failing push under the second name of stored content (file store).",
- "C07": " Also: AutoGC off in the OCI histories, the file store with ForceCAS, reopening an OCI layout after concurrent pushes.",
- "C10": " Also: six pairs of concurrent non-conflicting operations x schedules (D<=2 / D<=3) x crash points: effects of operations that returned survive.",
- "C11": " Also: after an accepted archive that leaves links which really lead outside, a second push (named blob / archive) through every such link; hard-link targets read relative to the archive root; a working directory with otherwise empty ancestors.",
- "C13": " Also: Read/Seek sequences against a chunked registry; bodies of known length deliver io.EOF together with the last byte.",
- "C16": " Also: registry B on registry A's host name with another port; the base endpoint /v2/ (challenge without scope); every attached bearer token is judged by the scope set it was issued for.",
- "C18": " Also: the store that executed a history and a fresh store on the same file must agree on Get wherever at most one entry can be meant.",
+ "C07": " Also: a chain index -> index -> manifest, reopening from an archive brought up to date by appending; AutoGC off in the OCI histories, the file store with ForceCAS, reopening an OCI layout after concurrent pushes.",
+ "C10": " Also: the point right after the interrupted call returned; six pairs of concurrent non-conflicting operations x schedules (D<=2 / D<=3) x crash points: effects of operations that returned survive.",
+ "C11": " Also: a hard link through a link chain, a link chain ending at a file; after an accepted archive that leaves links which really lead outside, a second push (named blob / archive) through every such link; hard-link targets read relative to the archive root; a working directory with otherwise empty ancestors.",
+ "C13": " Also: a wrong digest header under another algorithm; Read/Seek sequences against a chunked registry; bodies of known length deliver io.EOF together with the last byte.",
+ "C16": " Also: a Bearer challenge without realm, scope names containing a colon; registry B on registry A's host name with another port; the base endpoint /v2/ (challenge without scope); every attached bearer token is judged by the scope set it was issued for.",
+ "C18": " Also: concurrent calls through credentials.NewStore; the store that executed a history and a fresh store on the same file must agree on Get wherever at most one entry can be meant.",
 }
+EXTRA.update({
+ "C08": " Also: a push of non-JSON bytes under a manifest media type (refused; the layout stays usable).",
+ "C09": " Also: tags on non-manifest nodes.",
+ "C12": " Also: names beginning with dots, link targets not in shortest form, a path added twice and rewritten in between.",
+ "C15": " Also: query-only and relative-path Link references, empty pages without their list member, slices retained by the callback, an over-long chunked answer on the tag-schema path.",
+ "C17": " Also: bounds with MinWait above Retry-After.",
+ "C20": " Also: a Repository built from a reference that carries a tag or digest; bare tags through a Repository.",
+ "C04": " Also: a destination that can mount, a racing second writer (push meets ErrAlreadyExists after Exists said false).",
+ "C06": " Also: GC racing a push that is then tagged.",
+})
 for _k, _v in EXTRA.items():
     CHECKS[_k]["note"] += _v
 
